@@ -227,6 +227,12 @@ class Proc(object):
     def op_dump(self, s, tvar):
         return dump_tree(s.env[tvar], s.reg)
 
+    def op_put(self, s, path, key):
+        """Harness op (no repository code): the environment replaces the content of a file."""
+        with seams.REAL_OPEN(self._p(path), 'wb') as f:
+            f.write(self.spec['blobs'][key])
+        return None
+
     def op_wopen(self, s, svar, path, enc):
         s.env[svar] = io.open(self._p(path), 'w', encoding=enc)
         return None
